@@ -95,8 +95,8 @@ GSpec == GInit /\ [][GNext]_gvars
 Pick(S) == RandomElement(S)
 PickSeq(s) == s[Pick(1 .. Len(s))]
 \* before / after the message has what it needs to be accepted
-LikelyMid == <<"np", "a15", "a15", "a15", "ck", "ck", "ck", "ck", "sA", "sB", "pA", "pB", "un", "un">>
-LikelyEnd == <<"ck", "ck", "un", "sA", "pB", "eom", "eom", "eom", "eom", "eom">>
+LikelyMid == <<"np", "a15", "a15", "a15", "ck", "ck", "ck", "ck", "sA", "sB", "pA", "pB", "un", "un0", "un1">>
+LikelyEnd == <<"ck", "ck", "un", "un0", "sA", "pB", "eom", "eom", "eom", "eom", "eom">>
 LikelyTail == <<"a15", "ck", "ck", "np", "eom", "eom">>
 
 SNext ==
@@ -146,6 +146,24 @@ Decorated ==
     LET rs == hist[Last].recs
     IN Cardinality({i \in DOMAIN rs : rs[i] \notin Plain}) <= 1
 
+\* ---------------------------------------------------------- body length family
+\* state constraint for the exhaustive generator: messages made of at most one
+\* AEAD(15) record, one (deep: two) cookie records and AT MOST TWO records of an
+\* unrecognised type (critical or not) or Warning records, each with a body of
+\* length 0, 1 or typical, in any order and position (Alphabet <- AlphaLen):
+\* what a record's LENGTH does to the client's treatment of it and of the
+\* records that follow it
+Occ(rs, S) == Cardinality({i \in DOMAIN rs : rs[i] \in S})
+LenFam(n, c) ==
+  hist = << >> \/
+    LET rs == hist[Last].recs
+    IN /\ Occ(rs, UnkCrit \cup UnkNon \cup Warns) <= n
+       /\ Occ(rs, {"a15"}) <= 1 /\ Occ(rs, {"ck"}) <= c
+LenFamily  == LenFam(2, 1)
+LenFamilyDeep == LenFam(2, 2)
+\* (the QUIC twin: at most one such record)
+LenFamily1 == LenFam(1, 1)
+
 \* --------------------------------------------------------------- naming family
 \* state constraint for the exhaustive generator: messages made of one AEAD(15)
 \* record, one or two cookie records and at most MaxNaming Server / Port records,
@@ -155,7 +173,6 @@ Decorated ==
 NamingRecs == {"sA", "sB", "sH", "pA", "pB"}
 MaxNaming == 2
 MaxNaming3 == 3
-Occ(rs, S) == Cardinality({i \in DOMAIN rs : rs[i] \in S})
 Naming ==
   \A j \in DOMAIN hist :
     LET rs == hist[j].recs
@@ -173,6 +190,11 @@ Done == /\ Quiet /\ hist # << >>
 Emit == Done => PrintT(<<"CASE", ToJson([h |-> hist])>>)
 \* (TLC evaluates invariants also on the states a CONSTRAINT discards)
 EmitDecorated == (Done /\ Decorated) => PrintT(<<"CASE", ToJson([h |-> hist])>>)
+
+EmitLenIf(c) == (Done /\ c /\ Occ(hist[Last].recs, LenRecs) >= 1) => PrintT(<<"CASE", ToJson([h |-> hist])>>)
+EmitLen     == EmitLenIf(LenFamily)
+EmitLenDeep == EmitLenIf(LenFamilyDeep)
+EmitLen1    == EmitLenIf(LenFamily1)
 
 EmitNaming == (Done /\ Naming /\ AllAcceptable) => PrintT(<<"CASE", ToJson([h |-> hist])>>)
 
